@@ -376,6 +376,14 @@ def error_conversion_and_leftovers(chk: Check, repo: Repo) -> None:
     if len(sends) == 1 and drops:
         tests = [x.id for x in cfg.nodes if x.kind == "test" and x.ast is drops[0].test]
         ok = any(cfg.dominates(t, sends[0]) for t in tests)
+        # ... with no suspension point between the two: a late answer to the previous exchange that arrives while this
+        # request sleeps (the rate-limit pause) fills the fresh future and is returned as this request's answer
+        if ok:
+            fwd = cfg.reachable(tests, include_start=False, edge_ok=cfg.normal_only)
+            back = {n.id for n in cfg.nodes if sends[0] in cfg.reachable([n.id], include_start=False, edge_ok=cfg.normal_only)}
+            between = [cfg.nodes[i] for i in fwd & back if i != sends[0]]
+            susp = [n for n in between if n.ast is not None and any(isinstance(x, (ast.Await, ast.AsyncWith, ast.AsyncFor)) for x in ast.walk(n.ast) if not isinstance(x, (ast.FunctionDef, ast.AsyncFunctionDef, ast.Lambda)))]
+            ok = not susp
     chk.ob("leftover-response-is-dropped-before-sending", rq.site(), ok, "request(): a response future that is already done when the request starts is replaced before send_data (what it holds answers an earlier exchange)" if ok else "request() sends without clearing a response left over by an earlier exchange (answer to a request that failed on its acknowledge, or arrived after the response timeout): that telegram is returned as the answer to this request and the real answer is dropped", key="leftover-response")
 
 
